@@ -147,7 +147,8 @@ LEVEL_TEXT = (
     "models started there and the recorded witness of the pinned defect) is executed under two independent online budgets; "
     "a call that neither returns nor raises within 250000 driving-force evaluations is a violation with its input as "
     "witness. The evidence carries the histogram of evaluations per call, so that it is visible that non-convergent "
-    "inputs were actually met (they end with the library's own ValueError at 100000 iterations)."
+    "inputs were actually met (they end with the library's own ValueError at 100000 iterations). The permeate-composition "
+    "and separation-factor helpers and the models additionally run under a per-public-call budget (2 resp. 12 flux calculations)."
 )
 LEVEL_NOTE = "Unbounded termination cannot be decided by a finite run; the bound B and the sampled domain are the claim. Trusted: sys.monitoring LINE events and the wrapper on the real helper."
 TECHNIQUE = "runtime monitoring: online evaluation and line budgets (wrapper + sys.monitoring) over a workload aimed at the cycling region"
